@@ -132,13 +132,16 @@ inductive QStep where
   | next (i : Nat) (content : Bytes) (hasError : Bool)
   deriving Repr, DecidableEq
 
-/-- one iteration of the `for l.peekOk(i)` loop of `consumeQuotedContent` (and its exit) -/
-def quotedStep (rest : Bytes) (p0 : Nat) (q : Bytes) (raw unicode isIdent noPanic : Bool)
+/-- one iteration of the `for l.peekOk(i)` loop of `consumeQuotedContent` (and its exit).
+`tp` is `l.pos` as used for the start of the three whole-token errors, `p0` is `l.pos` as used in
+`l.pos + i` arithmetic; the lexer passes the same value for both (they are separate so that the
+locality lemma `quotedLoop_drop` can shift one and keep the other). -/
+def quotedStep (rest : Bytes) (tp p0 : Nat) (q : Bytes) (raw unicode isIdent noPanic : Bool)
     (i : Nat) (content : Bytes) (hasError : Bool) : QStep :=
   match rest[i]? with
   | none =>
     if noPanic then .done { content := [], hasError := true, len := i }
-    else .fail ⟨.unclosed, p0, p0 + i⟩
+    else .fail ⟨.unclosed, tp, p0 + i⟩
   | some c =>
     match lslice? rest i (i + q.length) with
     | none => .crash
@@ -146,7 +149,7 @@ def quotedStep (rest : Bytes) (p0 : Nat) (q : Bytes) (raw unicode isIdent noPani
       if sl == q then
         if content.isEmpty && isIdent then
           if noPanic then .done { content := [], hasError := true, len := i + q.length }
-          else .fail ⟨.emptyIdent, p0, p0 + i + q.length⟩
+          else .fail ⟨.emptyIdent, tp, p0 + i + q.length⟩
         else if hasError then .done { content := [], hasError := true, len := i + q.length }
         else .done { content := content, hasError := false, len := i + q.length }
       else if c == 92 then
@@ -163,22 +166,22 @@ def quotedStep (rest : Bytes) (p0 : Nat) (q : Bytes) (raw unicode isIdent noPani
             | .crash => .crash
       else if c == 10 && q.length != 3 then
         if noPanic then .next (i + 1) content true
-        else .fail ⟨.unclosedNewline, p0, p0 + i⟩
+        else .fail ⟨.unclosedNewline, tp, p0 + i⟩
       else .next (i + 1) (content ++ [c]) hasError
 
 /-- `consumeQuotedContent` — `rest` starts at the opening quote, `p0` is `l.pos`. -/
-def quotedLoop (rest : Bytes) (p0 : Nat) (q : Bytes) (raw unicode isIdent noPanic : Bool) :
+def quotedLoop (rest : Bytes) (tp p0 : Nat) (q : Bytes) (raw unicode isIdent noPanic : Bool) :
     Nat → Nat → Bytes → Bool → Res QC
   | 0, _, _, _ => .crash
   | fuel + 1, i, content, hasError =>
-    match quotedStep rest p0 q raw unicode isIdent noPanic i content hasError with
+    match quotedStep rest tp p0 q raw unicode isIdent noPanic i content hasError with
     | .done qc => .ok qc
     | .fail e => .err e
     | .crash => .crash
-    | .next i' content' hasError' => quotedLoop rest p0 q raw unicode isIdent noPanic fuel i' content' hasError'
+    | .next i' content' hasError' => quotedLoop rest tp p0 q raw unicode isIdent noPanic fuel i' content' hasError'
 
 def consumeQuotedContent (rest : Bytes) (p0 : Nat) (q : Bytes) (raw unicode isIdent noPanic : Bool) : Res QC :=
-  quotedLoop rest p0 q raw unicode isIdent noPanic (rest.length + 2) q.length [] false
+  quotedLoop rest p0 p0 q raw unicode isIdent noPanic (rest.length + 2) q.length [] false
 
 /-- `peekDelimiter`: `none` is the index panic / the "BUG" panic. -/
 def peekDelimiter (rest : Bytes) : Option Bytes :=
